@@ -544,6 +544,8 @@ class Evaluator:
             return fld(v, e.get("name") or str(e["f"]))
         if "down" in e:
             return ("down", v, e.get("name") or str(e["down"]))
+        if "last" in e:
+            return ("last", v)
         if "idx" in e:
             return ("idx", v, env.get(e["idx"], ("uninit",)))
         if "cidx" in e:
@@ -581,6 +583,8 @@ class Evaluator:
             if base[0] == "mref":
                 raise Undecided("write through a nested mutable reference")
             return self._update(base, proj[1:], val)
+        if isinstance(e, dict) and "last" in e:
+            return ("upd_last", base, self._update(("last", base), proj[1:], val))
         if isinstance(e, dict) and "down" in e:
             vname = e.get("name") or str(e["down"])
             if len(proj) < 2 or not (isinstance(proj[1], dict) and "f" in proj[1]):
@@ -1062,6 +1066,23 @@ class Evaluator:
                 else:
                     arms.append((rs, self._branch(fn, t, dl, dty, env2, visits, depth, until)))
             return mk_cases(src[1], src[2], tuple(arms))
+        if src is not None and src[0] == "ite":
+            outs = []
+            for leaf in (src[2], src[3]):
+                env2 = {l: (leaf if v == src else v) for l, v in env.items()}
+                dl = self.discriminant(leaf)
+                if leaf[0] in ("cases", "ite") and dl[0] in ("cases", "ite"):
+                    self._discr_src[dl] = leaf
+                if is_c(dl):
+                    nxt = t["otherwise"]
+                    for val, tgt in t["arms"]:
+                        if int(val) == dl[1]:
+                            nxt = tgt
+                            break
+                    outs.append(self._run(fn, nxt, env2, visits, depth, until))
+                else:
+                    outs.append(self._branch(fn, t, dl, dty, env2, visits, depth, until))
+            return ite(src[1], outs[0], outs[1])
         if d[0] in ("cases", "ite") and visits is not None:
             # split on the scrutinee's own case structure first: each leaf is then simpler (often constant)
             def leaf(x):
@@ -1137,6 +1158,13 @@ class Evaluator:
             cur = self._mref_get(env, args[0])
             self._mref_set(env, args[0], some(args[1]))
             return cur
+        if name in ("core::slice::<impl [T]>::last_mut", "alloc::vec::Vec::<T, A>::last_mut") and args and args[0][0] == "mref":
+            cur = self._mref_get(env, args[0])
+            empty = ("call", "core::slice::<impl [T]>::is_empty", (cur,))
+            return ite(empty, NONE, some(("mref", args[0][1], args[0][2] + (("last", "last", 0),))))
+        if name == "core::option::Option::<T>::as_mut" and args and args[0][0] == "mref":
+            cur = self._mref_get(env, args[0])
+            return opt_match(cur, lambda x: some(("mref", args[0][1], args[0][2] + (("d", "Some", 1), ("f", "0", 0)))), lambda: NONE)
         if name == RANGE_NEXT and args and args[0][0] == "mref" and not args[0][2]:
             cur = env.get(args[0][1], ("uninit",))
             if cur[0] == "adt" and cur[1] == "core::ops::range::Range":
@@ -1226,7 +1254,7 @@ class Evaluator:
 
 RANGE_NEXT = "core::iter::range::<impl core::iter::traits::iterator::Iterator for core::ops::range::Range<A>>::next"
 def _dec(proj):
-    return [{"f": e[2], "name": e[1]} if e[0] == "f" else {"down": e[2], "name": e[1]} for e in proj]
+    return [{"f": e[2], "name": e[1]} if e[0] == "f" else ({"last": True} if e[0] == "last" else {"down": e[2], "name": e[1]}) for e in proj]
 
 
 STD_ENUMS = {"core::option::Option": ["None", "Some"], "core::result::Result": ["Ok", "Err"],
@@ -1573,6 +1601,26 @@ def _collect(ev, it, d):
     return ("seq", src, tuple(out), body)
 
 
+def _find_array(t):
+    if isinstance(t, tuple) and t:
+        if t[0] == "array":
+            return t
+        for x in t[1:]:
+            if isinstance(x, tuple):
+                r = _find_array(x)
+                if r is not None:
+                    return r
+    return None
+
+
+def _m_vec_macro(ev, a, t, d):
+    """`vec![a, b, ..]` (a boxed array turned into a Vec): the vector of exactly those elements"""
+    arr = _find_array(a[0])
+    if arr is None:
+        return None
+    return arr
+
+
 def _m_box_new(ev, a, t, d):
     return a[0]
 
@@ -1784,6 +1832,8 @@ DEFAULT_MODELS = {
     "alloc::vec::Vec::<T, A>::as_slice": _ident,
     "alloc::slice::<impl [T]>::to_vec": _ident,
     "alloc::boxed::Box::<T>::new": _m_box_new,
+    "alloc::boxed::box_assume_init_into_vec_unsafe": _m_vec_macro,
+    "alloc::slice::<impl [T]>::into_vec": _m_vec_macro,
     "core::str::traits::<impl core::cmp::PartialEq for str>::eq": _m_eq,
     "<alloc::string::String as core::cmp::PartialEq<&str>>::eq": _m_eq,
     "core::cmp::impls::<impl core::cmp::PartialEq<&B> for &A>::eq": _m_eq,
